@@ -15,6 +15,8 @@ type Scenario struct {
 	Name    string
 	Horizon int
 	Build   func(s *Sched) (verify func() (fails []string, outcome string), cleanup func())
+	Adopt   bool
+	Quiesce bool
 }
 
 // Failure is a violating execution.
@@ -64,6 +66,8 @@ func RunOnce(t *testing.T, sc Scenario, prefix []int, keepTrace bool, exitOnFail
 		}
 		s := NewSched(prefix, h)
 		s.KeepTrace = keepTrace
+		s.Adopt, s.Quiesce = sc.Adopt, sc.Quiesce
+		defer s.Done()
 		verify, cleanup := sc.Build(s)
 		s.Run()
 		rec.Points = s.Points
